@@ -127,6 +127,7 @@ def run_shard(mod, tier, seed, shard, nshards, ctx, rep, n_examples=None, second
                 ctx.label("grid:cut-short-after-%d-failing-cells" % MAX_FAILING_GRID_CELLS)
                 break
             vs = core.evaluate(mod, case, ctx)
+            ctx.grid_cases += 1
             new = rep.split(vs)
             if new:
                 failing_cells += 1
@@ -247,9 +248,9 @@ def main(argv=None):
         for s, path, vd in rep.reported:
             print("  violated: %s %s" % (s, json.dumps(vd["detail"])[:400]))
             print("VIOLATION property=%s replay=%s" % (mod.ID, path))
-        print("%s %s seed=%d: %d cases (%d distinct non-trivial, %d grid cells), %d regressions, "
-              "%d violation(s), %.1f s" % (mod.ID, a.tier, seed, ctx.evaluations, len(ctx.nontrivial),
-                                           ctx.exhaustive_cells, nreg, len(rep.reported), wall))
+        print("%s %s seed=%d: %d cases (%d distinct non-trivial, %d from the deterministic grid, %d enumerated cells), "
+              "%d regressions, %d violation(s), %.1f s" % (mod.ID, a.tier, seed, ctx.evaluations, len(ctx.nontrivial),
+                                                           ctx.grid_cases, ctx.exhaustive_cells, nreg, len(rep.reported), wall))
         return 1 if rep.reported else 0
     except Exception as e:  # harness error, never a violation
         traceback.print_exc()
